@@ -165,6 +165,9 @@ public:
         interrupt_handler = std::move(handler);
     }
 
+#ifdef TEAKRA_VERIF
+    friend struct ::TeakraVerifAccess;
+#endif
 private:
     std::function<void()> interrupt_handler;
 
